@@ -26,6 +26,10 @@ sys.path.insert(0, HERE)
 REPO = os.environ.get('PYVC_REPO', '/repo')
 VENV_PY = '/venv/bin/python'
 NPROC = int(os.environ.get('VERIF_NPROC', '14'))
+# developer switch (seeded-change evaluation): write evidence and replays somewhere else so that a run
+# against a scratch copy of the repository does not overwrite the evidence of /repo itself
+EVID = os.environ.get('VERIF_EVIDENCE_DIR', os.path.join(HERE, 'evidence'))
+REPLAYS = os.environ.get('VERIF_REPLAY_DIR', os.path.join(HERE, 'replays'))
 
 
 def load_registry():
@@ -75,7 +79,7 @@ def run_bounded(pid, tier, seed):
     mod = os.path.join(HERE, 'bounded', pid.lower() + '.py')
     if not os.path.exists(mod):
         return None
-    out = os.path.join(HERE, 'evidence', '.%s.bounded.json' % pid)
+    out = os.path.join(EVID, '.%s.bounded.json' % pid)
     os.makedirs(os.path.dirname(out), exist_ok=True)
     if os.path.exists(out):
         os.unlink(out)
@@ -150,7 +154,7 @@ def main():
     samples = []
     assumptions = set()
     unmodelled = []
-    replay_dir = os.path.join(HERE, 'replays', pid)
+    replay_dir = os.path.join(REPLAYS, pid)
     if os.path.isdir(replay_dir):
         for f in os.listdir(replay_dir):
             os.unlink(os.path.join(replay_dir, f))
@@ -289,8 +293,8 @@ def main():
     if ev['coverage']['evaluations'] < 1:
         ev['coverage'].pop('evaluations')
         ev['coverage'].pop('distinct_nontrivial')
-    os.makedirs(os.path.join(HERE, 'evidence'), exist_ok=True)
-    json.dump(ev, open(os.path.join(HERE, 'evidence', pid + '.json'), 'w'), indent=1, default=repr)
+    os.makedirs(EVID, exist_ok=True)
+    json.dump(ev, open(os.path.join(EVID, pid + '.json'), 'w'), indent=1, default=repr)
     # ---------------------------------------------------------------- verdict
     for l in known_lines:
         print(l)
